@@ -17,6 +17,21 @@ CHECKS = {
     text="Same model as C04/C05 (invariant C07_Overlap: accumulated time under mask 3 = cells covered by both classes, for every tie order); generated traces through TraceAnalysis.get_comm_comp_overlap, reported percentage checked by TLC against OverlapTime/CommTime with the two-decimal rounding tolerance.",
     note="Ratio checked only when communication time > 0. " + TB,
     ref="DESIGN.md section 5 (C07)"),
+ "C01": dict(
+    technique="TLA+ loader pipeline model (MC_Load: Parse/Align/Trim/Index, rounding lemma) checked by TLC + TLC trace validation (Trace_Load) of parse-only and fully loaded frames against the file image",
+    text="TLC exhausts the pipeline over a menu of rank files (half-microsecond ticks, optional steps/launch/kernel, 1-2 ranks with skew) with invariants Faithful, MinTsMeaning, EndIsTsPlusDur, NoTrimNoLoss, Rounding; 200/3000 generated file sets (1-4 ranks, mixed formats, fractional timestamps, epoch offsets up to 1.7e15) are parsed (sequentially and by the process pool) and loaded by the real code and every row is compared by TLC with the declarative image Image(F,u), the shift constant MinTs and end = ts + dur.",
+    note="Name/category decoding via the real symbol table; base subtraction and JSON handling by the harness with exact arithmetic. " + TB,
+    ref="DESIGN.md section 5 (C01)"),
+ "C02": dict(
+    technique="TLA+ model of the correlation-to-link transformation (MC_Links) checked by TLC over all traces <=4-5 events + TLC trace validation of index_correlation on parsed and loaded frames (Trace_Load, operator LinkOf)",
+    text="TLC enumerates every trace of <=4 (thorough 5) events over host ops, runtime calls, kernels, device-wide and stream synchronisation records with correlation ids reused across sides, in the WellFormed domain, and checks LinkMeaning/Mutual/Monotone on the transcribed sentinel+join algorithm; 300/5000 generated traces with missing launches/kernels are loaded and every row's link is checked by TLC against LinkOf.",
+    note="WellFormed is re-evaluated by TLC on every recorded frame (a record outside the domain is a harness failure, not a violation). " + TB,
+    ref="DESIGN.md section 5 (C02)"),
+ "C12": dict(
+    technique="TLA+ loader pipeline model (MC_Load: Trim with the end column as the code reads it) checked by TLC + TLC trace validation of iteration numbers, kept id sets, get_iterations, get_profiler_steps (Trace_Load)",
+    text="MC_Load invariants TrimMeaning and IterMeaning over all menu files, both include_last settings and 1-2 ranks; 300/5000 generated traces with 0-3 steps, gaps, events at step boundaries are loaded with include_last_profiler_step on/off and TLC compares the kept ids with Kept(rows, incl), the iteration column with IterOf and the getters with the rows.",
+    note="Domain adds: all ranks share the step numbers, step spans disjoint and positive (checked by TLC per record). Iteration of Event/Context Sync rows not asserted. " + TB,
+    ref="DESIGN.md section 5 (C12)"),
 }
 
 NOT_YET = {}
